@@ -19,7 +19,7 @@ NOT_APPLICABLE = {
     "C05": "whole-framework data-race freedom over all goroutine interleavings (goroutine creation, channels, errgroup, ants pool, real epoll) has no finite SMT encoding within reach of a hand-written go/ssa encoder; see DESIGN.md section 6",
     "C06": "liveness/ordering of shutdown across the stop goroutine, every loop goroutine, ticker and errgroup.Wait needs the same whole-program concurrent model as C05; sequential lemmas are decided under C04/C03; see DESIGN.md section 6",
 }
-for _p in ("C01", "C02", "C03", "C04", "C07", "C08", "C10", "C11", "C12", "C13", "C14", "C15", "C16", "C17", "C18", "C19"):
+for _p in ("C01", "C02", "C03", "C04", "C07", "C08", "C13", "C14", "C18", "C19"):
     NOT_APPLICABLE.setdefault(_p, "check not built yet in this session (work in progress, see DESIGN.md section 10)")
 
 PROPS["C20"] = {
@@ -138,5 +138,35 @@ PROPS["C15"] = {
         {"name": "gnet-lb", "pkgdir": ".", "files": ["harness/gnet/c15_lb.go"], "mode": "int", "unwind": 300, "contracts": ["byteslice", "ringbuffer"],
          "stub_values": GNET_STUB_VALUES,
          "cfg": {"vcfg": {"maxN": 16, "maxNcount": 4, "maxNlc": 6}}, "cfg_thorough": {"vcfg": {"maxN": 256, "maxNcount": 4, "maxNlc": 8}}},
+    ],
+}
+
+
+def _gnet_go_rewrite(src, out):
+    s = open(src).read()
+    for a, b in [("url.Parse(", "vstubURLParse("), ("strings.ReplaceAll(protoAddr,", "vstubReplaceAll(protoAddr,"),
+                 ("path.Join(u.Host,", "vstubPathJoin(u.Host,"), ("runtime.NumCPU()", "vstubNumCPU()")]:
+        if a not in s:
+            raise RuntimeError("rewrite anchor %r not found in gnet.go" % a)
+        s = s.replace(a, b)
+    s += "\n// keep the imports of the redirected calls alive\nvar (\n\t_ = url.Parse\n\t_ = path.Join\n)\n"
+    open(out, "w").write(s)
+
+
+GNET_OPAQUE = ["github.com/panjf2000/gnet/v2/pkg/logging.", "context.", "golang.org/x/sync/errgroup."]
+
+PROPS["C16"] = {
+    "level": "other",
+    "level_text": "Symbolic execution (bit-vector back end, all 64-bit option values) of the real option normalisation in createListeners and NewClient and of determineEventLoops; and of parseProtoAddr's dispatch for every (scheme, host, path) a URL parser can return (url.Parse/path.Join as contract stubs). z3 decides each obligation.",
+    "level_note": "NOT covered by the solver: the text-level behaviour of net/url.Parse (percent-escaping of zones, bracket handling) - url.Parse, strings.ReplaceAll and path.Join are environment stubs constrained only by their type contract, so 'the endpoint is exactly as written' is reduced to 'the endpoint is the parser's Host / the joined path'. Trusted: go/ssa lowering, SSA->SMT translation, z3; logging/context/errgroup calls are opaque (no effect on options).",
+    "design_ref": "DESIGN.md section 5 (C16)",
+    "explanation": "Option fields and NumCPU are unconstrained 64-bit symbols; specifications (power of two as 63-way disjunction) are written independently.",
+    "bounds": {"options": "full 64-bit range", "url": "scheme in {7 supported, '', 'http'}, host/path symbolic <= 6 bytes"},
+    "outside": ["net/url.Parse text handling", "Windows branch of parseProtoAddr"],
+    "assumptions": ["url.Parse / path.Join / strings.ReplaceAll stubs", "logging opaque"],
+    "units": [
+        {"name": "gnet-opts", "pkgdir": ".", "files": ["harness/gnet/c16_opts.go"], "mode": "bv", "contracts": ["byteslice", "ringbuffer"],
+         "stub_values": GNET_STUB_VALUES, "opaque_calls": GNET_OPAQUE, "skip_pkgs": ["github.com/panjf2000/gnet/v2/pkg/logging"],
+         "rewrites": {"gnet.go": _gnet_go_rewrite}},
     ],
 }
